@@ -8,6 +8,7 @@ mod util;
 mod c18;
 mod c12;
 mod c10;
+mod c05;
 
 fn main() {
     // silence the default panic message: panics are observations here
@@ -22,6 +23,7 @@ fn main() {
         "c18" => c18::run(rest),
         "c12" => c12::run(rest),
         "c10" | "c11" => c10::run(rest),
+        "c05" | "c14" => c05::run(rest),
         other => {
             eprintln!("unknown subcommand {other}");
             std::process::exit(2);
